@@ -6,6 +6,7 @@ mod hostsrv;
 mod intr;
 mod parsesrv;
 mod rcmc;
+mod sched;
 mod util;
 
 fn main() {
